@@ -99,3 +99,10 @@ Theorem C15_ok_on_code_partial : forall reenc : str -> str,
 Proof. exact Server_on_code.c15_ok_partial_on_code. Qed.
 Print Assumptions C15_ok_on_code_partial.
 
+(* the listening sockets (table regenerated from the source by translate/tlsconf.py) leave asyncio's TLS handshake and
+   shutdown timeouts at their defaults: how long a slow reader may take to drain a response after close() (C06), and how
+   long a silent peer may sit in the handshake on the standard-library backend (C15), are asyncio's constants *)
+From NV Require Gen.TlsConfigGen Proofs.TlsListeners.
+Theorem C15_listeners_default_timing : TlsListeners.default_tls_timing TlsConfigGen.listener_options = true.
+Proof. exact TlsListeners.listeners_default_timing. Qed.
+Print Assumptions C15_listeners_default_timing.
